@@ -60,13 +60,82 @@ def _havoc_shaped_locals(it, spec, frame, tag):
         frame.locals[name] = build_sym(it, node, "loop.%s.%s!%d" % (tag, name, it.ctx.fresh_n), {})
 
 
+# A loop spec names the locals it talks about.  So that a RENAMED local does not turn a proof into
+# UNDECIDED, a spec parameter that is not a local of the function is bound by its ROLE in the loop
+# (harmless refactoring r09 renamed `rx_timeout`, `timeout` and `retries`):
+#   deadline   the one local the loop never assigns that is compared with a time.monotonic[_ns]() reading
+#   countdown  the one local the loop decrements by a constant and tests in its condition
+#   arg:<m>    the one local passed as first argument to a call of method <m> inside the loop
+# (A parameter with no role stays unbound: UNDECIDED.  Binding it to an arbitrary value was tried and rejected --
+# the entry obligation then fails for values the code never produces: a false alarm on harmless refactoring r10.)
+ROLE_OF = {"timeout": "deadline", "rx_timeout": "deadline", "end_timer": "deadline", "retries": "countdown",
+           "request_count": "arg:_request_address"}
+
+
+def _is_clock_call(n):
+    return (isinstance(n, ast.Call) and isinstance(n.func, ast.Attribute) and n.func.attr in ("monotonic_ns", "monotonic")
+            and isinstance(n.func.value, ast.Name) and n.func.value.id == "time")
+
+
+def _role_candidates(st, role, local_names):
+    assigned = set(_assigned_names(st))
+    found = []
+    if role == "deadline":
+        for n in ast.walk(st):
+            if isinstance(n, ast.Compare):
+                sides = [n.left] + list(n.comparators)
+                if any(_is_clock_call(x) for s_ in sides for x in ast.walk(s_)):
+                    for s_ in sides:
+                        if isinstance(s_, ast.Name) and s_.id in local_names and s_.id not in assigned and s_.id not in found:
+                            found.append(s_.id)
+    elif role.startswith("arg:"):
+        m = role[4:]
+        for n in ast.walk(st):
+            if (isinstance(n, ast.Call) and isinstance(n.func, ast.Attribute) and n.func.attr == m and n.args
+                    and isinstance(n.args[0], ast.Name) and n.args[0].id in local_names and n.args[0].id not in found):
+                found.append(n.args[0].id)
+    elif role == "countdown":
+        tested = {x.id for x in ast.walk(st.test) if isinstance(x, ast.Name)}
+        for n in ast.walk(st):
+            if (isinstance(n, ast.AugAssign) and isinstance(n.op, ast.Sub) and isinstance(n.target, ast.Name)
+                    and isinstance(n.value, ast.Constant) and n.target.id in tested and n.target.id in local_names
+                    and n.target.id not in found):
+                found.append(n.target.id)
+    return found
+
+
+def _aliases(it, st, frame, spec):
+    """spec parameter -> actual local, for parameters that are not locals but have a role"""
+    out = {}
+    keys = [spec.inv, spec.variant, spec.entry, spec.frame] + list(spec.havoc or [])
+    roles = dict(ROLE_OF)
+    roles.update(getattr(spec, "roles", None) or {})
+    for k in keys:
+        if not k:
+            continue
+        for a in it.program.func(k).node.args.args:
+            p = a.arg
+            if p in frame.locals or p in out or p == "k_":
+                continue
+            if p not in roles:
+                continue
+            cand = _role_candidates(st, roles[p], set(frame.locals))
+            if len(cand) == 1:
+                out[p] = cand[0]
+    return out
+
+
 def _call_spec(it, fi, frame, extra=None):
     env = dict(frame.locals)
     if extra:
         env.update(extra)
+    alias = getattr(frame, "spec_alias", None) or {}
     params = [a.arg for a in fi.node.args.args]
     args = []
     for p in params:
+        if p not in env and p in alias and alias[p] in env:
+            args.append(env[alias[p]])
+            continue
         if p not in env:
             raise Unsupported("loop spec %s wants unknown local %s" % (fi.key, p))
         args.append(env[p])
@@ -186,20 +255,22 @@ def _generalise_variant_params(it, st, frame, spec, tag):
     product) is sound and keeps the termination VCs linear"""
     ctx = it.ctx
     assigned = _assigned_names(st)
+    alias = getattr(frame, "spec_alias", None) or {}
     for a in it.program.func(spec.variant).node.args.args:
-        cur = frame.locals.get(a.arg)
-        if a.arg in assigned:
+        name = a.arg if a.arg in frame.locals else alias.get(a.arg, a.arg)
+        cur = frame.locals.get(name)
+        if name in assigned:
             continue
         if isinstance(cur, sym.SFloat) and isinstance(cur.ns, SInt):      # a deadline in float seconds
             lo, hi = sym.rng(cur.ns)
             ctx.fresh_n += 1
-            frame.locals[a.arg] = sym.SFloat(cur.nonneg, ns=ctx.input_int("loop.%s.%s.any!%d" % (tag, a.arg, ctx.fresh_n), lo, hi))
+            frame.locals[name] = sym.SFloat(cur.nonneg, ns=ctx.input_int("loop.%s.%s.any!%d" % (tag, a.arg, ctx.fresh_n), lo, hi))
             continue
         if not isinstance(cur, SInt):
             continue
         lo, hi = sym.rng(cur)
         ctx.fresh_n += 1
-        frame.locals[a.arg] = ctx.input_int("loop.%s.%s.any!%d" % (tag, a.arg, ctx.fresh_n), lo, hi)
+        frame.locals[name] = ctx.input_int("loop.%s.%s.any!%d" % (tag, a.arg, ctx.fresh_n), lo, hi)
 
 
 def _variant_value(it, spec, frame):
@@ -220,6 +291,7 @@ def run_while_with_invariant(it, st, frame, spec):
     ctx = it.ctx
     prog = it.program
     inv = prog.func(spec.inv)
+    frame.spec_alias = _aliases(it, st, frame, spec)
     tag = _name(it, frame, st)
     oname = ctx.ghost.get("contract_name", "?") + "." + tag
     # contracts apply to the callee code only: suspend nothing -- spec code always runs inline
@@ -260,9 +332,11 @@ def run_while_with_invariant(it, st, frame, spec):
         try:
             it.exec_block(st.body, frame)
         except BreakSig:
-            _frame_check(it, spec, frame, fr0, oname, tag)
-            _footprint_check(it, foot, snap1, oname, tag)
-            return            # a break leaves the loop: execution goes on after it
+            # a break leaves the loop: execution goes on after it with the ACTUAL state.  Frame and havoc
+            # footprint only have to cover turns that go round again (they make the next head state), so
+            # they are not demanded of a turn that leaves (harmless refactoring r10 moved a loop's exit
+            # test from the condition into the body: `while True: if done(): break`)
+            return
         except ContinueSig:
             pass
         _frame_check(it, spec, frame, fr0, oname, tag)
@@ -319,9 +393,7 @@ def run_for_with_invariant(it, st, frame, spec):
         try:
             it.exec_block(st.body, frame)
         except BreakSig:
-            _frame_check(it, spec, frame, fr0, oname, tag)
-            _footprint_check(it, foot, snap1, oname, tag)
-            return
+            return      # see run_while_with_invariant: no frame/footprint demand on a turn that leaves
         except ContinueSig:
             pass
         _frame_check(it, spec, frame, fr0, oname, tag)
@@ -394,9 +466,7 @@ def run_foreach_with_invariant(it, st, frame, spec, coll):
         try:
             it.exec_block(st.body, frame)
         except BreakSig:
-            _frame_check(it, spec, frame, fr0, oname, tag)
-            _footprint_check(it, foot, snap1, oname, tag)
-            return
+            return      # see run_while_with_invariant: no frame/footprint demand on a turn that leaves
         except ContinueSig:
             pass
         _frame_check(it, spec, frame, fr0, oname, tag)
